@@ -14,10 +14,10 @@ LEVEL_TEXT = ("Held on the executions produced: for every attribute set (<= 6 en
 BUDGET_S = {"quick": 30, "thorough": 400}
 RULE = ("cases = (attribute set, permutation) for generated sets (every permutation of each set is run) plus walker "
         "streams of parsed input. distinct_nontrivial = distinct (set, permutation) with at least 2 attributes.")
-ASSUMPTIONS = ["namespace '' is excluded (Lint forbids it and no walker emits it)",
+ASSUMPTIONS = ["namespace '' (which the etree walker reports for an attribute literally named {}x) is included, but never together with None for the same local name: the two have the same sort key, so their relative order is not determined by the property",
                "the filter mutates tokens in place, so inputs are deep-copied first"]
 
-NSS = [None, None, "http://www.w3.org/1999/xlink", "http://www.w3.org/XML/1998/namespace", "http://www.w3.org/2000/xmlns/",
+NSS = [None, None, "", "http://www.w3.org/1999/xlink", "http://www.w3.org/XML/1998/namespace", "http://www.w3.org/2000/xmlns/",
        "a", "b", "B", "é", "\U0001F600", "http://www.w3.org/1999/xhtml", "{"]
 LOCALS = ["a", "b", "href", "lang", "A", "aa", "a-b", "a:b", "z", "é", "\U0001F600", "0", "_", "xlink:href", "{x}y", "Z"]
 
@@ -77,7 +77,11 @@ def gen_set(rng):
         ln = rng.choice(LOCALS)
         if keys and rng.random() < 0.45:
             ln = rng.choice(sorted(keys, key=repr))[1]  # share a local name across namespaces
-        keys.add((rng.choice(NSS), ln))
+        k = (rng.choice(NSS), ln)
+        # None and '' have the same sort key: with equal local names the order would be legitimately ambiguous
+        if ((None if k[0] == "" else "") , ln) in keys:
+            continue
+        keys.add(k)
     return [(k, rng.choice(["", "v", "1", "é"])) for k in sorted(keys, key=repr)]
 
 
@@ -124,6 +128,7 @@ def shard(ctx):
         [((None, "a"), "1"), (("x", "a"), "2")], [((None, "b"), "1"), (("a", "a"), "2"), ((None, "a"), "3")],
         [(("http://www.w3.org/1999/xlink", "href"), "1"), ((None, "href"), "2"), (("http://www.w3.org/XML/1998/namespace", "href"), "3")],
         [((None, "z"), ""), (("z", "a"), ""), (("a", "z"), ""), ((None, "a"), "")],
+        [(("", "title"), "1"), ((None, "id"), "2"), (("x", "title"), "3")], [(("", "b"), "1"), ((None, "a"), "2")],
     ]
     for k, items in enumerate(fixed):
         if ctx.mine(k):
